@@ -561,8 +561,11 @@ class Machine:
                         prev_deref_self = d.self_base
                 elif '::' in name:
                     d.self_base = type_base(name.rsplit('::', 1)[0])
-            if d.method == '__static_ref_initialize' and prev_deref_self:
-                self.lazy_inits[prev_deref_self] = f
+            if d.method in ('__static_ref_initialize', '__stability') and prev_deref_self and '::deref::' in name:
+                d.self_base = prev_deref_self
+                d.trait_base = 'Deref'
+                if d.method == '__static_ref_initialize':
+                    self.lazy_inits[prev_deref_self] = f
             self.defs_by_method.setdefault(d.method, []).append(d)
 
     def resolve_local(self, c, args):
@@ -878,8 +881,14 @@ class Machine:
         h = self.lib.get('const:' + name) or self.lib.get('const:' + name.rsplit('::', 1)[-1])
         if h is not None:
             return h(self)
-        base = mp.find_top(name, '<')
-        nm = name
+        if name.startswith('ZeroSized: '):
+            ty = name[11:].strip()
+            if ty.startswith('{closure@'):
+                return Closure(ty, [])
+            mm = re.search(r'\{([^{}]*)\}$', ty)
+            if ty.startswith(('fn(', 'for<', 'unsafe fn(')) and mm:
+                return FnItem(mm.group(1))
+            return Adt(type_base(ty), None, [])
         # enum variant / unit struct constants and function items
         c = parse_callee(name)
         if c.method and c.method[0].isupper() and c.self_base in self.enums and c.method in self.enums[c.self_base]:
